@@ -5,7 +5,7 @@ use core::ptr::NonNull;
 use crate::any_vec_ptr::{AnyVecPtr, AnyVecRawPtr, IAnyVecRawPtr};
 use crate::any_vec_ptr::utils::element_ptr_at;
 use crate::any_vec_raw::AnyVecRaw;
-use crate::{AnyVec, AnyVecTyped};
+use crate::AnyVecTyped;
 use crate::element::{ElementPointer, ElementMut, ElementRef};
 use crate::mem::MemBuilder;
 use crate::traits::Trait;
@@ -142,7 +142,9 @@ where
     Traits: ?Sized + Trait, 
     M: MemBuilder,
     IterItem: IteratorItem<'a, AnyVecPtr<Traits, M>>,
-    AnyVec<Traits, M>: Send
+    // Iterator is as sendable as the items it hands out
+    // (shared `ElementRef`s need `AnyVec: Sync`).
+    IterItem::Item: Send
 {}
 #[allow(renamed_and_removed_lints, suspicious_auto_trait_impls)]
 unsafe impl<'a, T, M, IterItem> Send
@@ -161,7 +163,7 @@ where
     Traits: ?Sized + Trait, 
     M: MemBuilder, 
     IterItem: IteratorItem<'a, AnyVecPtr<Traits, M>>,    
-    AnyVec<Traits, M>: Sync
+    IterItem::Item: Sync
 {}
 unsafe impl<'a, T, M, IterItem> Sync
 for
@@ -201,7 +203,7 @@ impl<'a, Traits: ?Sized + Trait, M: MemBuilder> IteratorItem<'a, AnyVecPtr<Trait
 
     #[inline]
     fn element_to_item(element: ElementPointer<'a, AnyVecPtr<Traits, M>>) -> Self::Item {
-        ElementRef(ManuallyDrop::new(element))
+        ElementRef(ManuallyDrop::new(element), PhantomData)
     }
 }
 impl<'a, Traits: ?Sized + Trait, M: MemBuilder> Clone for ElementRefIterItem<'a, Traits, M>{
